@@ -1251,6 +1251,19 @@ package ucfg
 //@ modifies *
 //@ ensures [names_setting] result != nil ==> typeof(result) == baseError && result.(baseError).path == pathOfCtx(old(ctxof(with)), ".") && result.(baseError).reason != nil
 
+// C14: the value handed to the path writer already carries the metadata of the call - the intermediate nodes that
+// cfgPath.SetValue builds for a dotted name take their metadata from it (its loop invariant)
+//@ iface value.setMeta :: self, m
+//@ modifies obj(self)
+//@ ensures metaof(self) == m
+
+//@ func (*Config).setField :: c, name, idx, v, options -> err
+//@ props C07 C14
+//@ sweep
+//@ checks-pre parsePathIdx
+//@ requires v != nil && allocated(objref(v))
+//@ at-call (cfgPath).SetValue requires opt.meta != nil ==> metaof(val) == opt.meta
+
 //@ iface value.meta :: self -> r
 //@ pure
 //@ ensures r == metaof(self)
